@@ -37,8 +37,8 @@ Proof. unfold zlen. rewrite app_length. lia. Qed.
 
 Lemma heads_length off items : zlen (heads off items) = hlen items.
 Proof.
-  revert off; induction items as [|[d e] r IH]; intros off; simpl; [reflexivity|].
-  destruct d; rewrite zlen_app, IH; [rewrite zlen_word|]; reflexivity.
+  revert off; induction items as [|[d e] r IH]; intros off; [reflexivity|].
+  destruct d; cbn [heads hlen]; rewrite zlen_app, IH; [rewrite zlen_word|]; reflexivity.
 Qed.
 
 Lemma tails_length items : zlen (tails items) = tlen items.
@@ -159,3 +159,255 @@ Section Walk.
       rewrite (IH hs (hp + zlen e) off); cbn [bind hlen]; try reflexivity; try lia; assumption.
   Qed.
 End Walk.
+
+(* ---------- the specification's tuple / array helpers under names ---------- *)
+Fixpoint tuple_items (ts : list ty) (vs : list val) {struct vs} : list item :=
+  match ts, vs with
+  | t :: ts', v :: vs' => (dynamic t, enc t v) :: tuple_items ts' vs'
+  | _, _ => []
+  end.
+
+Lemma enc_tuple ts vs : enc (TTuple ts) (VList vs) = head_tail (tuple_items ts vs).
+Proof.
+  cbn [enc]. f_equal. revert ts; induction vs as [|v vs IH]; intros [|t ts]; try reflexivity.
+  cbn [tuple_items]. rewrite <- IH. reflexivity.
+Qed.
+
+Fixpoint tuple_wt (ts : list ty) (vs : list val) {struct vs} : bool :=
+  match ts, vs with
+  | [], [] => true
+  | t :: ts', v :: vs' => well_typed t v && tuple_wt ts' vs'
+  | _, _ => false
+  end.
+
+Lemma well_typed_tuple ts vs : well_typed (TTuple ts) (VList vs) = tuple_wt ts vs.
+Proof.
+  cbn [well_typed]. revert ts; induction vs as [|v vs IH]; intros [|t ts]; try reflexivity.
+  cbn [tuple_wt]. rewrite <- IH. reflexivity.
+Qed.
+
+Fixpoint tuple_cvs (cs : list tcomp) (vs : list val) {struct vs} : list cval :=
+  match cs, vs with
+  | c :: cs', v :: vs' => cv_of c v :: tuple_cvs cs' vs'
+  | _, _ => []
+  end.
+
+Lemma cv_of_tuple cs k vs : cv_of (TCTuple cs k) (VList vs) = CV (Some (TCTuple cs k)) (tuple_cvs cs vs) GNil.
+Proof.
+  cbn [cv_of]. f_equal. revert cs; induction vs as [|v vs IH]; intros [|c cs]; try reflexivity.
+  cbn [tuple_cvs]. rewrite <- IH. reflexivity.
+Qed.
+
+Definition array_items (t : ty) (vs : list val) : list item := map (fun v => (dynamic t, enc t v)) vs.
+
+(* ---------- hypotheses on the component tree and on sizes ---------- *)
+Definition good (c : tcomp) : bool :=
+  tc_consistent c && wf_ty (ty_of c) && tc_no_fixed_point c && tc_no_zero_len c.
+
+Lemma good_fixed len ch k : good (TCFixedArr len ch k) = true -> good ch = true /\ 0 < len < 2 ^ 32.
+Proof.
+  unfold good. cbn [tc_consistent ty_of wf_ty tc_no_fixed_point tc_no_zero_len].
+  rewrite !andb_true_iff, negb_true_iff. intros [[[[[H1 H2] H3] H4] H5] [H6 H7]].
+  repeat split; try assumption; lia.
+Qed.
+
+Lemma good_dyn ch k : good (TCDynArr ch k) = true -> good ch = true.
+Proof. unfold good. cbn [tc_consistent ty_of wf_ty tc_no_fixed_point tc_no_zero_len]. tauto. Qed.
+
+Lemma good_tuple l k : good (TCTuple l k) = true -> Forall (fun c => good c = true) l.
+Proof.
+  unfold good. cbn [tc_consistent ty_of wf_ty tc_no_fixed_point tc_no_zero_len].
+  rewrite !andb_true_iff, forallb_map, !forallb_forall. intros [[[H1 H2] H3] H4].
+  apply Forall_forall. intros x Hx. rewrite H1, H2, H3, H4 by exact Hx. reflexivity.
+Qed.
+
+(* every list (array, tuple) in the value is shorter than 2^32 *)
+Fixpoint counts_ok (v : val) : bool :=
+  match v with
+  | VList l => (Z.of_nat (length l) <? 2 ^ 32) && forallb counts_ok l
+  | _ => true
+  end.
+
+Definition sizes_ok (t : ty) (v : val) : Prop := zlen (enc t v) < 2 ^ 32 /\ counts_ok v = true.
+
+(* ---------- E-static / E-dyn ---------- *)
+Definition elem_goal (block : bytes) (c : tcomp) : Prop :=
+  forall v, well_typed (ty_of c) v = true -> sizes_ok (ty_of c) v ->
+    elem_ok block (decodeABIElement block c) (dynamic (ty_of c)) (enc (ty_of c) v) (cv_of c v).
+
+Lemma pad_right_length_ge b : zlen b <= zlen (pad_right b).
+Proof. destruct (pad_right_app b) as [k [E _]]. rewrite E, zlen_app. unfold zlen. lia. Qed.
+
+Lemma elem_elementary block e s m n k :
+  good (TCElem e s m n k) = true -> elem_goal block (TCElem e s m n k).
+Proof.
+  intros Hg v Hwt [Hsz _]. unfold good in Hg.
+  cbn [tc_consistent tc_no_fixed_point tc_no_zero_len] in Hg. rewrite !andb_true_iff in Hg.
+  destruct Hg as [[[Hc Hwf] Hnf] _].
+  destruct e; cbn [ty_of] in *; try discriminate.
+  - (* int<M> *)
+    destruct v as [z| |]; cbn [well_typed] in Hwt; try discriminate.
+    cbn [wf_ty] in Hwf. cbn [dynamic enc cv_of elem_ok]. intros hs hp He.
+    cbn [decodeABIElement decode_elementary decoder_of].
+    rewrite (decodeABISignedInt_word block hp m _ z); [cbn [bind]; rewrite zlen_word; reflexivity| lia | lia | exact He].
+  - (* uint<M> *)
+    destruct v as [z| |]; cbn [well_typed] in Hwt; try discriminate.
+    cbn [wf_ty] in Hwf. cbn [dynamic enc cv_of elem_ok]. intros hs hp He.
+    cbn [decodeABIElement decode_elementary decoder_of].
+    rewrite (decodeABIUnsignedInt_word block hp m _ z); [cbn [bind]; rewrite zlen_word; reflexivity| lia | lia | lia | exact He].
+  - (* address *)
+    destruct v as [z| |]; cbn [well_typed] in Hwt; try discriminate.
+    cbn [default_m] in Hc. apply N.eqb_eq in Hc. subst m.
+    cbn [dynamic enc cv_of elem_ok]. intros hs hp He.
+    cbn [decodeABIElement decode_elementary decoder_of].
+    rewrite (decodeABIUnsignedInt_word block hp 160 _ z); [cbn [bind]; rewrite zlen_word; reflexivity| reflexivity | lia | lia | exact He].
+  - (* bool *)
+    destruct v as [z| |]; cbn [well_typed] in Hwt; try discriminate.
+    cbn [default_m] in Hc. apply N.eqb_eq in Hc. subst m.
+    cbn [dynamic enc cv_of elem_ok]. intros hs hp He.
+    cbn [decodeABIElement decode_elementary decoder_of].
+    assert (0 <= z < two 8) by (change (two 8) with 256; lia).
+    rewrite (decodeABIUnsignedInt_word block hp 8 _ z); [cbn [bind]; rewrite zlen_word; reflexivity| reflexivity | lia | lia | exact He].
+  - (* bytes<M> / bytes *)
+    destruct (m =? 0)%N eqn:Em.
+    + apply N.eqb_eq in Em. subst m.
+      destruct v as [|b|]; cbn [well_typed] in Hwt; try discriminate.
+      cbn [dynamic enc cv_of elem_ok] in *. intros hs hp o Ho Hw He.
+      cbn [decodeABIElement decode_elementary decoder_of]. unfold decodeABIBytes.
+      rewrite (decodeABIBytes_raw_dyn block hs hp o b Ho); [reflexivity| |exact Hw|exact He].
+      rewrite zlen_app, zlen_word in Hsz. pose proof (pad_right_length_ge b). lia.
+    + apply N.eqb_neq in Em.
+      destruct v as [|b|]; cbn [well_typed] in Hwt; try discriminate.
+      cbn [wf_ty] in Hwf. cbn [dynamic enc cv_of elem_ok] in *. intros hs hp He.
+      cbn [decodeABIElement decode_elementary decoder_of]. unfold decodeABIBytes.
+      rewrite (decodeABIBytes_raw_fixed block hs hp m b); [cbn [bind]| lia | lia | exact He].
+      unfold zlen. rewrite pad_right_small by lia. reflexivity.
+  - (* function *)
+    destruct v as [|b|]; cbn [well_typed] in Hwt; try discriminate.
+    cbn [default_m] in Hc. apply N.eqb_eq in Hc. subst m.
+    cbn [dynamic enc cv_of elem_ok] in *. intros hs hp He.
+    cbn [decodeABIElement decode_elementary decoder_of]. unfold decodeABIBytes.
+    rewrite (decodeABIBytes_raw_fixed block hs hp 24 b); [cbn [bind]| lia | lia | exact He].
+    unfold zlen. rewrite pad_right_small by lia. reflexivity.
+  - (* string *)
+    destruct v as [|b|]; cbn [well_typed] in Hwt; try discriminate.
+    apply N.eqb_eq in Hc. subst m.
+    cbn [dynamic enc cv_of elem_ok] in *. intros hs hp o Ho Hw He.
+    cbn [decodeABIElement decode_elementary decoder_of]. unfold decodeABIString.
+    rewrite (decodeABIBytes_raw_dyn block hs hp o b Ho); [reflexivity| |exact Hw|exact He].
+    rewrite zlen_app, zlen_word in Hsz. pose proof (pad_right_length_ge b). lia.
+Qed.
+
+(* ---------- unfolding decodeABIElement on composite components ---------- *)
+Lemma dec_tuple_unfold block children k hs hp :
+  decodeABIElement block (TCTuple children k) hs hp =
+  (let c := TCTuple children k in
+   let dyn := isDynamicType c in
+   do (hs', hp') <- (if dyn then do ho <- decodeABILength block hp; Ok (hs + ho, hs + ho) else Ok (hs, hp));
+   do (rd, l) <- walkDynamicChildArrayABIBytes block children hs' hp';
+   Ok (if dyn then 32 else rd, CV (Some c) l GNil)).
+Proof.
+  cbn [decodeABIElement]. cbv zeta.
+  destruct (if isDynamicType (TCTuple children k)
+            then do ho <- decodeABILength block hp; Ok (hs + ho, hs + ho) else Ok (hs, hp)) as [[hs' hp']| |];
+    cbn [bind]; try reflexivity.
+  match goal with |- bind (?F children hp') _ = _ =>
+    assert (E : forall l q, F l q = walkDynamicChildArrayABIBytes block l hs' q) end.
+  { induction l as [|a l IH]; intros q; [reflexivity|].
+    cbn [walkDynamicChildArrayABIBytes].
+    match goal with |- ?F (a :: l) q = _ =>
+      change (F (a :: l) q) with
+        (do (n, x) <- decodeABIElement block a hs' q; do (m, xs) <- F l (q + n); Ok (n + m, x :: xs)) end.
+    destruct (decodeABIElement block a hs' q) as [[n x]| |]; cbn [bind]; try reflexivity.
+    rewrite IH. reflexivity. }
+  rewrite E. reflexivity.
+Qed.
+
+Lemma dec_fixed_unfold block len ch k hs hp :
+  decodeABIElement block (TCFixedArr len ch k) hs hp =
+  (let c := TCFixedArr len ch k in
+   if isDynamicType c then
+     do ho <- decodeABILength block hp;
+     if len <? 0 then Panic else
+     do (_, x) <- walkDynamicChildArrayABIBytes_rep (decodeABIElement block ch) c len (hs + ho) (hs + ho);
+     Ok (32, x)
+   else decodeABIFixedArrayBytes (decodeABIElement block ch) c len hs hp).
+Proof. reflexivity. Qed.
+
+Lemma dec_dyn_unfold block ch k hs hp :
+  decodeABIElement block (TCDynArr ch k) hs hp =
+  (do ho <- decodeABILength block hp;
+   do x <- decodeABIDynamicArrayBytes block (decodeABIElement block ch) (TCDynArr ch k) ch (hs + ho);
+   Ok (32, x)).
+Proof. reflexivity. Qed.
+
+(* ---------- a type that occupies head bytes occupies at least one word per value ---------- *)
+Lemma zlen_nonneg (b : bytes) : 0 <= zlen b.
+Proof. unfold zlen. lia. Qed.
+
+Lemma zlen_flat_map_ge (items : list item) d e : In (d, e) items -> zlen e <= zlen (flat_map snd items).
+Proof.
+  induction items as [|[d' e'] r IH]; simpl; [tauto|]. intros [E|H'].
+  - injection E as -> ->. rewrite zlen_app. pose proof (zlen_nonneg (flat_map snd r)). lia.
+  - rewrite zlen_app. specialize (IH H'). pose proof (zlen_nonneg e'). lia.
+Qed.
+
+Lemma tuple_static_all ts vs : existsb dynamic ts = false -> all_static (tuple_items ts vs).
+Proof.
+  revert ts; induction vs as [|v vs IH]; intros [|t ts] H; try constructor.
+  - cbn [existsb] in H. apply orb_false_iff in H as [H1 H2]. exact H1.
+  - cbn [existsb] in H. apply orb_false_iff in H as [H1 H2]. apply IH. exact H2.
+Qed.
+
+Lemma array_static_all t vs : dynamic t = false -> all_static (array_items t vs).
+Proof. intros H. unfold array_items, all_static. apply Forall_forall. intros it Hi. apply in_map_iff in Hi as [v [<- _]]. exact H. Qed.
+
+Lemma occ_min c :
+  tc_consistent c = true -> wf_ty (ty_of c) = true -> occupiesHeadBytes c = true ->
+  forall v, well_typed (ty_of c) v = true -> dynamic (ty_of c) = false -> 32 <= zlen (enc (ty_of c) v).
+Proof.
+  induction c as [e s m n k|len ch k IH|ch k IH|l k IH] using tcomp_ind'; intros Hc Hwf Hocc v Hwt Hdyn.
+  - cbn [tc_consistent] in Hc.
+    destruct e; cbn [ty_of] in *; try discriminate;
+      try (destruct v as [z|b|]; cbn [well_typed] in Hwt; try discriminate; cbn [enc]; rewrite zlen_word; lia).
+    + destruct (m =? 0)%N eqn:Em; [discriminate|]. apply N.eqb_neq in Em.
+      destruct v as [z|b|]; cbn [well_typed] in Hwt; try discriminate. cbn [enc wf_ty] in *.
+      unfold zlen. rewrite pad_right_small by lia. lia.
+    + destruct v as [z|b|]; cbn [well_typed] in Hwt; try discriminate. cbn [enc].
+      unfold zlen. rewrite pad_right_small by lia. lia.
+  - cbn [ty_of tc_consistent wf_ty occupiesHeadBytes dynamic] in *.
+    rewrite !andb_true_iff in Hc, Hocc. destruct Hc as [[Hc1 Hc2] Hc3]. destruct Hocc as [Ho1 Ho2].
+    destruct v as [| |vs]; cbn [well_typed] in Hwt; try discriminate.
+    apply andb_true_iff in Hwt as [Hl Hall]. cbn [enc]. fold (array_items (ty_of ch) vs).
+    rewrite head_tail_static by (apply array_static_all; exact Hdyn).
+    destruct vs as [|v0 vs]; [simpl in Hl; lia|].
+    cbn [forallb] in Hall. apply andb_true_iff in Hall as [Hv0 _].
+    specialize (IH Hc3 Hwf Ho2 v0 Hv0 Hdyn).
+    pose proof (zlen_flat_map_ge (array_items (ty_of ch) (v0 :: vs)) (dynamic (ty_of ch)) (enc (ty_of ch) v0)
+                  ltac:(left; reflexivity)). lia.
+  - discriminate.
+  - cbn [ty_of tc_consistent wf_ty occupiesHeadBytes dynamic] in *.
+    destruct v as [| |vs]; try (cbn [well_typed] in Hwt; discriminate).
+    rewrite well_typed_tuple in Hwt. rewrite enc_tuple.
+    rewrite head_tail_static by (apply tuple_static_all; exact Hdyn).
+    revert vs Hwt. induction l as [|c l IHl]; intros vs Hwt; [discriminate|].
+    inversion IH as [|? ? IHc IHr]; subst.
+    cbn [map forallb existsb] in *.
+    apply andb_true_iff in Hc as [Hc1 Hc2]. apply andb_true_iff in Hwf as [Hw1 Hw2].
+    apply orb_false_iff in Hdyn as [Hd1 Hd2].
+    destruct vs as [|v0 vs]; [discriminate|]. cbn [tuple_wt] in Hwt. apply andb_true_iff in Hwt as [Hv0 Hvs].
+    cbn [tuple_items flat_map snd]. rewrite zlen_app.
+    destruct (occupiesHeadBytes c) eqn:Eo.
+    + specialize (IHc Hc1 Hw1 eq_refl v0 Hv0 Hd1). pose proof (zlen_nonneg (flat_map snd (tuple_items (map ty_of l) vs))). lia.
+    + cbn [orb] in Hocc. specialize (IHl IHr Hc2 Hw2 Hocc Hd2 vs Hvs). pose proof (zlen_nonneg (enc (ty_of c) v0)). lia.
+Qed.
+
+Lemma hlen_array_ge t vs :
+  (forall v, In v vs -> 32 <= (if dynamic t then 32 else zlen (enc t v))) ->
+  32 * Z.of_nat (length vs) <= hlen (array_items t vs).
+Proof.
+  induction vs as [|v vs IH]; intros H; [simpl; lia|].
+  cbn [array_items map hlen length]. fold (array_items t vs).
+  specialize (IH ltac:(intros; apply H; right; assumption)). specialize (H v ltac:(left; reflexivity)).
+  destruct (dynamic t); lia.
+Qed.
